@@ -185,6 +185,9 @@ func checkEst(c estCase) (o pbt.Outcome, err error) {
 	o.Ambiguous += v.Ambiguous
 	o.NonTrivial = v.NonTrivial > 0
 	classify(&o, c.Opt, c.Tier, ref)
+	if refdist.HasLower(c.Rows) {
+		o.Class("lower-case residues")
+	}
 	if v.Substitute > 0 {
 		o.Class("undefined-reported-as-2max")
 	}
@@ -306,8 +309,9 @@ type cliCase struct {
 	Average bool            `json:"average"`
 	// Bad: "" or the kind of invalid invocation (the command must fail)
 	Bad string `json:"bad"`
-	// Before: with phylip input, an alignment of as many rows placed before Rows in the same file: the
-	// command computes one matrix per alignment with the same model object
+	// Before: with phylip input, another alignment (its own number of rows and columns) placed before Rows
+	// in the same file: the command computes one matrix per alignment with the same model object and the
+	// same --range1/--range2, whose maxima may lie beyond the smaller alignment (clipped per alignment)
 	Before []string `json:"before"`
 }
 
@@ -323,7 +327,18 @@ func genCLI(t *rapid.T) cliCase {
 	c.ToFile = rapid.IntRange(0, 3).Draw(t, "tofile") == 0
 	c.Average = rapid.IntRange(0, 5).Draw(t, "average") == 0
 	if c.Phylip && rapid.Bool().Draw(t, "two-alignments") {
-		c.Before, _ = refdist.GenRows(t, len(c.Rows), len(c.Rows), 30, c.Tier)
+		c.Before, _ = refdist.GenRows(t, 2, 6, 30, c.Tier)
+		if c.Opt.Ranges != nil || rapid.Bool().Draw(t, "ranges-over-both") {
+			small, large := len(c.Before), len(c.Rows)
+			if small > large {
+				small, large = large, small
+			}
+			a := rapid.IntRange(0, small-1).Draw(t, "r1min")
+			b := rapid.IntRange(a, large+1).Draw(t, "r1max")
+			cc := rapid.IntRange(0, small-1).Draw(t, "r2min")
+			d := rapid.IntRange(cc, large+1).Draw(t, "r2max")
+			c.Opt.Ranges = []int{a, b, cc, d}
+		}
 	}
 	if rapid.IntRange(0, 7).Draw(t, "bad") == 0 {
 		c.Bad = rapid.SampledFrom([]string{"gap-mut-3", "gap-mut-negative", "unknown-model", "range-min>max", "range-malformed", "single-range", "protein-alignment", "missing-file"}).Draw(t, "badkind")
@@ -400,6 +415,14 @@ func TestCLI(t *testing.T) {
 		if r.TimedOut {
 			return o, fmt.Errorf("goalign %v did not finish", args)
 		}
+		// a range whose minimum lies beyond an alignment (after clipping the maximum) is an error
+		if c.Bad == "" && c.Opt.Ranges != nil {
+			for _, n := range []int{len(c.Before), len(c.Rows)} {
+				if rg := c.Opt.Ranges; n > 0 && (rg[0] > n-1 || rg[2] > n-1) {
+					c.Bad = "range-minimum-beyond-an-alignment"
+				}
+			}
+		}
 		if c.Bad != "" {
 			if r.Exit == 0 {
 				return o, fmt.Errorf("goalign %v: invalid invocation (%s) but exit status 0, stdout %q", args, c.Bad, r.Stdout)
@@ -426,6 +449,17 @@ func TestCLI(t *testing.T) {
 		if c.Before != nil {
 			inputs = [][]string{c.Before, c.Rows}
 			o.Class("two-alignments-in-one-file")
+			if c.Opt.Ranges != nil {
+				switch {
+				case len(c.Before) < len(c.Rows):
+					o.Class("two-alignments+ranges: smaller first")
+				case len(c.Before) > len(c.Rows):
+					o.Class("two-alignments+ranges: larger first")
+				}
+				if m := len(c.Before); c.Opt.Ranges[1] >= m || c.Opt.Ranges[3] >= m || c.Opt.Ranges[1] >= len(c.Rows) || c.Opt.Ranges[3] >= len(c.Rows) {
+					o.Class("range maximum beyond an alignment (clipped)")
+				}
+			}
 		}
 		if c.Average {
 			lines := strings.Split(strings.TrimRight(text, "\n"), "\n")
@@ -448,8 +482,8 @@ func TestCLI(t *testing.T) {
 		}
 		for k, rows := range inputs {
 			for i, n := range names[k] {
-				if n != ali.Rows[i].Name {
-					return o, fmt.Errorf("goalign %v: row %d is named %q, want %q", args, i, n, ali.Rows[i].Name)
+				if n != fmt.Sprintf("s%d", i) {
+					return o, fmt.Errorf("goalign %v: alignment %d, row %d is named %q, want s%d", args, k+1, i, n, i)
 				}
 			}
 			v, ref, err := refdist.JudgeAny(mats[k], rows, c.Opt, refdist.Readings(rows, c.Opt), judgeOpt(refdist.CLITol))
@@ -461,6 +495,9 @@ func TestCLI(t *testing.T) {
 			o.NonTrivial = o.NonTrivial || v.NonTrivial > 0
 			if k == len(inputs)-1 {
 				classify(&o, c.Opt, c.Tier, ref)
+				if refdist.HasLower(rows) {
+					o.Class("lower-case residues")
+				}
 			}
 		}
 		o.Class("threads=%d", c.Threads)
